@@ -525,7 +525,129 @@ func (a *Analyzer) comparatorPaths(info *types.Info, fl *ast.FuncLit, params []t
 			}
 		}
 	}
+	if ok, why := lexicographic(paths); !ok {
+		return false, why
+	}
 	return a.antisymPaths(paths)
+}
+
+// mirroredKey: the atom compares the same projection of the two elements (eq(f(§a), f(§b))): returns f(§a).
+func mirroredKey(atom string) string {
+	if !strings.HasPrefix(atom, "eq(") {
+		return ""
+	}
+	inner := atom[3 : len(atom)-1]
+	depth, cut := 0, -1
+	for i, c := range inner {
+		switch c {
+		case '(', '[':
+			depth++
+		case ')', ']':
+			depth--
+		case ',':
+			if depth == 0 && cut < 0 {
+				cut = i
+			}
+		}
+	}
+	if cut <= 0 {
+		return ""
+	}
+	x, y := inner[:cut], inner[cut+1:]
+	if x != y && swapAB(x) == y && strings.Contains(x+y, "§") {
+		if strings.Contains(x, "§a") {
+			return x
+		}
+		return y
+	}
+	return ""
+}
+
+// lexicographic (transitivity of a multi-key comparator): a path may decide by a later key only after it has
+// established that every key which is compared before it elsewhere in the comparator is equal. A comparator
+// that skips a key under some other condition (one of the two values is empty) and goes on to the next key
+// orders a < b and b < c by different keys than a and c: the relation has cycles, and the result of sorting
+// depends on the order of arrival.
+func lexicographic(paths []apath) (bool, string) {
+	keyOfRes := func(r ares) string {
+		if r.kind == "const" {
+			return ""
+		}
+		return mirroredKey(eqAtom(r.x, r.y))
+	}
+	// precedence among keys: j before k when some path tests j and later tests (or decides by) k
+	before := map[[2]string]bool{}
+	for _, p := range paths {
+		var seq []string
+		for _, l := range p.lits {
+			if k := mirroredKey(l.atom); k != "" {
+				seq = append(seq, k)
+			}
+		}
+		if k := keyOfRes(p.res); k != "" {
+			seq = append(seq, k)
+		}
+		for i := range seq {
+			for j := i + 1; j < len(seq); j++ {
+				if seq[i] != seq[j] {
+					before[[2]string{seq[i], seq[j]}] = true
+				}
+			}
+		}
+	}
+	for _, p := range paths {
+		k := keyOfRes(p.res)
+		if k == "" {
+			continue
+		}
+		for pair := range before {
+			if pair[1] != k || before[[2]string{k, pair[0]}] {
+				continue // not a key that precedes k (or the two are not ordered consistently: left to antisymmetry)
+			}
+			j := pair[0]
+			jb := swapAB(j)
+			established, looked := false, false
+			constA, constB := map[string]bool{}, map[string]bool{}
+			for _, l := range p.lits {
+				if l.pos && mirroredKey(l.atom) == j {
+					established = true
+				}
+				if strings.Contains(l.atom, j) || strings.Contains(l.atom, jb) {
+					looked = true
+				}
+				// both equal to the same third thing
+				if l.pos && strings.HasPrefix(l.atom, "eq(") {
+					inner := l.atom[3 : len(l.atom)-1]
+					for _, side := range []string{j, jb} {
+						other := ""
+						if strings.HasPrefix(inner, side+",") {
+							other = inner[len(side)+1:]
+						} else if strings.HasSuffix(inner, ","+side) {
+							other = inner[:len(inner)-len(side)-1]
+						}
+						if other != "" && !strings.Contains(other, "§") {
+							if side == j {
+								constA[other] = true
+							} else {
+								constB[other] = true
+							}
+						}
+					}
+				}
+			}
+			for c := range constA {
+				if constB[c] {
+					established = true
+				}
+			}
+			// a path that never looked at the earlier key belongs to a class in which that key plays no part (decided by
+			// keys established before); one that looked at it and went on without equality skips it
+			if !established && looked {
+				return false, fmt.Sprintf("the comparator decides by %s on a path (%s) that has not established %s to be equal, although %s is compared first elsewhere: the order is not transitive (a<b and b<c can be decided by different keys than a and c), so the sorted order depends on the order of arrival", strings.ReplaceAll(k, "§a", "a"), litsString(p.lits), strings.ReplaceAll(j, "§a", "a"), strings.ReplaceAll(j, "§a", "a"))
+			}
+		}
+	}
+	return true, ""
 }
 
 func (a *Analyzer) antisymPaths(paths []apath) (bool, string) {
